@@ -131,8 +131,8 @@ func (m *topicModel) feed(it Item) {
 		case snref.REGACK:
 			key := uint32(p.MsgID)<<16 | uint32(p.TopicID)
 			r, ok := m.gwReg[key]
-			if !ok && p.RC != 0 {
-				// a refusal need not echo the TopicID
+			if !ok && p.RC != 0 && p.TopicID == 0 {
+				// a refusal need not echo the TopicID (one that echoes another TopicID is a stale duplicate)
 				for k, q := range m.gwReg {
 					if k>>16 == uint32(p.MsgID) && (!ok || k < key) {
 						key, r, ok = k, q, true
